@@ -29,7 +29,7 @@ from ..ref import finance as fin
 PROPERTY = 'C20'
 LEVEL = 'exploration'
 
-RATES = (-0.89, -0.5, -0.1, 0, 0.0001, 0.001, 0.01, 0.05, 0.1, 0.25, 0.5, 1,
+RATES = (-0.89, -0.5, -0.1, -5e-7, 0, 5e-7, 0.0001, 0.001, 0.01, 0.05, 0.1, 0.25, 0.5, 1,
          2.5, 10)
 RATES_FEW = (-0.5, 0, 0.05, 1)
 F6 = (-100, -10, 0, 10, 50, 100)
